@@ -185,6 +185,9 @@ def s_pwa(draw):
     # the target may itself be a TriMesh carrying its OWN (different) triangulation: the map and its inverse are
     # defined by the source's triangle list only
     c["tgt_form"] = draw(st.sampled_from(["pointcloud", "pointcloud", "trimesh_own"]))
+    # a near-identity warp (target = source + small per-vertex displacement): source and target domains overlap, so
+    # the same points can be fed to the transform and to its inverse
+    c["near_id"] = draw(st.sampled_from([False, False, True]))
     return c
 
 
@@ -201,7 +204,10 @@ def pwa_setup(c):
     alt = np.where(np.isfinite(alt), alt, 0.0)
     disp = gen.arr(c["unit"]) * (c["amp"] * alt)[:, None]
     lin = gen.build_linear(2, c["lin"])
-    tgt = (src + disp).dot(lin.T) + gen.arr(c["shift"])
+    if c.get("near_id"):
+        tgt = src + disp
+    else:
+        tgt = (src + disp).dot(lin.T) + gen.arr(c["shift"])
     return source, src, tgt, trilist
 
 
@@ -258,6 +264,36 @@ def c_pwa(c, ctx):
     want, outside = rw.pwa_eval(tgt, src, trilist, y)
     if ctx.expect(not outside.any(), "harness.reference_point_outside", ""):
         ctx.expect(close(pre, want, rtol=0, atol=1e-8 * sc), "pwa.inverse_vs_barycentric_reference", lambda: describe(pre, want))
+    # an inverse taken AFTER the transform has been used, then fed the very values the transform saw last: points that
+    # lie (with margin, by the barycentric reference) in both the source and the target domain
+    cand = np.vstack([x, y, np.array([src[list(tri)].mean(axis=0) for tri in fat])])
+    f_ref, out_s = rw.pwa_eval(src, tgt, trilist, cand)
+    b_ref, out_t = rw.pwa_eval(tgt, src, trilist, cand)
+    both = ~out_s & ~out_t
+    if both.any():
+        z = cand[both]
+        # keep only points at a safe distance from every edge of both triangulations (location never decided by rounding)
+        safe = np.array([_edge_clear(p, src, trilist) and _edge_clear(p, tgt, trilist) for p in z], dtype=bool)
+        z = z[safe]
+        if z.shape[0]:
+            ctx.event("inverse of a used transform probed on points of both domains")
+            t.apply(z)
+            inv2 = t.pseudoinverse()
+            got2 = inv2.apply(z.copy())
+            want2 = b_ref[both][safe]
+            ctx.expect(close(got2, want2, rtol=0, atol=1e-8 * sc), "pwa.inverse_of_used_transform_answers_from_stale_state",
+                       lambda: describe(got2, want2))
+
+
+def _edge_clear(p, pts, trilist, eps=1e-6):
+    for tri in trilist:
+        for e in range(3):
+            a, b = pts[tri[e]], pts[tri[(e + 1) % 3]]
+            ab = b - a
+            tpar = min(1.0, max(0.0, float((p - a).dot(ab) / ab.dot(ab))))
+            if np.linalg.norm(p - (a + tpar * ab)) < eps:
+                return False
+    return True
 
 
 # ------------------------------------------------------------------------------------------ thin plate splines
